@@ -92,8 +92,7 @@ PARTIAL = ("the composite commands (set/incr with tags, delete_tags, get_or_set,
            "inside a transaction is not exercised (tag registries and transactions are not combined); cache.lock is run with "
            "wait=False and with wait=True/check_interval=1 against a lock that expires (the CacheBackendInteractionError branch of "
            "lock() needs a failing backend: C19); delete_tags' loop is exercised up to its second round (100 / 101 members); "
-           "in the unchanged code the callback ignores a disabled SET_REMOVE / tags backend (finding D38, reported as KNOWN-FINDING; "
-           "the model describes the repaired callback, proposed_fixes/C17_remove_callback_ignores_disable.diff)")
+           "the callback asks the tags backend's own control state before talking to it (defect D41, repaired as e3dff8d)")
 
 P_QUICK = ["", "a", "b", "ab", "a:", "ab:c", "ba", ":"]
 P_THORO = P_QUICK + ["aa", "ab:", "A", "é", "b:"]
@@ -137,16 +136,12 @@ WRITING = {"set", "set_many", "delete", "delete_many", "delete_match", "clear", 
 D22F = "D22f:disabled-pattern-read-runs-inner-middlewares"
 # inside invalidate_further() an enabled retrieve command is replaced by one of these deletions
 REPLACERS = {"delete": ["get", "incr"], "delete_many": ["get_many"], "delete_match": ["get_match"]}
-# Finding of this check in the unchanged code (not yet repaired in /repo; proposed_fixes/C17_remove_callback_ignores_disable.diff):
-# the on-remove callback of cashews/wrapper/tags.py hands `set_remove` to the tags backend directly, without asking whether
-# SET_REMOVE (or the whole tags backend / prefix `_tag:`) is disabled for the caller.  The model describes the repaired code.
-# Listed here (not in the shared known_findings.json, which this branch may not edit): reported as KNOWN-FINDING, not as VIOLATION.
-D38 = "D38:remove-callback-ignores-disabled-tags-backend"
-LOCAL_KNOWN = {
-    D38: "cache.register_tag('t', 'k'); cache.disable(Command.SET_REMOVE) (or cache.disable(prefix='_tag:') of a dedicated tags "
-         "backend); await cache.delete('k') -> the tags backend still receives set_remove('_tag:t', 'k') from the facade's "
-         "on-remove callback",
-}
+# Found by this check (composite commands), repaired in /repo as e3dff8d (design id D41; `fixed` entry in known_findings.json,
+# which suppresses nothing): the on-remove callback of cashews/wrapper/tags.py handed `set_remove` to the tags backend directly,
+# without asking whether SET_REMOVE (or the whole tags backend / prefix `_tag:`) is disabled for the caller.
+D38 = "D41:remove-callback-ignores-disabled-tags-backend"
+# no finding is ever registered from here: known findings live in /verif/known_findings.json only (chk.violation matches them)
+LOCAL_KNOWN: dict[str, str] = {}
 KNOWN_SEEN: dict[str, int] = {}
 
 
